@@ -7,7 +7,7 @@ Driver requests of property C07 (whole runs and phase tables).
       floatStr table: list of  <tok> <str(float(tok))>
       base header   : list of  <key> <value>
       files         : list of  <path token> <content>       (after <fuel>)
-      rng₀, σ       : ONE stream each: list of <vocabulary> <draw>: 0 graph samplers (format of Driver/GraphBuild),
+      rng₀, σ       : two streams each (parse phase, later): list of <vocabulary> <draw>: 0 graph samplers (format of Driver/GraphBuild),
                       1 formula samplers (Driver/Rand), 2 networkx (Driver/NxBuild), 3 Shuffle (Driver/Shuffle)
                       (σ is the state `random.seed(s)` installs, for the seed of this command line)
       answer: `OK T <#draws consumed while parsing> <#draws consumed later> <code points of the text> W <files written>`
@@ -44,7 +44,10 @@ def rdraw : P RDraw := do
   | 3 => do let d ← Shuffle.drawP; pure (.sh d)
   | _ => failure
 
-def rng : P Rng := listOf rdraw
+def rng : P Rng := do
+  let p ← listOf rdraw
+  let l ← listOf rdraw
+  pure ⟨p, l⟩
 
 def interpRow : P (String × GCli.Arg) := do
   let tok ← str; let a ← GraphBuild.arg
